@@ -1,5 +1,6 @@
 import CotengraVerif.Lemmas.Gather
 import CotengraVerif.Lemmas.Chunks
+import Mathlib.Tactic.Set
 
 /-!
   Semantics of slicing: the einsum of the network is the sum, over the values of the sliced
@@ -700,5 +701,204 @@ theorem einsumRef_eq (n : Net) (sl : List SliceInfo) (hf : Flags n sl) (hnd : (s
     have : isSliced sl ix = false := by simpa using (List.mem_filter.1 hix).2
     simp [rangeFor, infoOf_none_of_not_sliced sl ix this]
   rw [e1, e2, sumOver_allKeys _ hinn]
+
+end Cotengra.Slicing
+
+namespace Cotengra.Slicing
+open Cotengra
+
+/-! ### the slice results as arrays (for a hypothesis-free statement) -/
+
+theorem sumOver_agree (R : List (Ix × List Nat)) (f : (Ix → Nat) → Int) :
+    ∀ (L : List Ix) (σ σ' : Ix → Nat),
+      (∀ τ τ' : Ix → Nat, (∀ ix, ix ∈ L ∨ ix ∈ R.map (·.1) → τ ix = τ' ix) → f τ = f τ') →
+      (∀ ix ∈ L, σ ix = σ' ix) → sumOver R f σ = sumOver R f σ' := by
+  induction R with
+  | nil =>
+    intro L σ σ' hf h
+    exact hf σ σ' (fun ix hix => by
+      rcases hix with h1 | h1
+      · exact h ix h1
+      · simp at h1)
+  | cons x rs ih =>
+    obtain ⟨jx, vals⟩ := x
+    intro L σ σ' hf h
+    simp only [sumOver]
+    congr 1
+    apply List.map_congr_left
+    intro v _
+    apply ih (jx :: L)
+    · intro τ τ' hag
+      apply hf
+      intro ix hix
+      apply hag
+      rcases hix with h1 | h1
+      · exact Or.inl (List.mem_cons_of_mem _ h1)
+      · simp only [List.map_cons, List.mem_cons] at h1
+        rcases h1 with h1 | h1
+        · exact Or.inl (by rw [h1]; exact List.mem_cons_self)
+        · exact Or.inr h1
+    · intro ix hix
+      unfold upd
+      by_cases e : ix = jx
+      · simp [e]
+      · simp only [e, if_false]
+        rcases List.mem_cons.1 hix with h1 | h1
+        · exact absurd h1 e
+        · exact h ix h1
+
+theorem prodTerms_agree (n : Net) (A : List Arr) (τ τ' : Ix → Nat)
+    (h : ∀ c, ∀ ix ∈ n.term c, τ ix = τ' ix) : prodTerms n A τ = prodTerms n A τ' := by
+  unfold prodTerms
+  congr 1
+  apply List.map_congr_left
+  intro c _
+  unfold denote
+  congr 1
+  exact List.map_congr_left (h c)
+
+/-- the assignment that reads index `ix` off position `axes.idxOf ix` of a multi-index -/
+def assignOf (axes : List Ix) (idx : List Nat) : Ix → Nat := fun ix => idx.getD (axes.idxOf ix) 0
+
+theorem assignOf_map (axes : List Ix) (σ : Ix → Nat) (ix : Ix) (h : ix ∈ axes) :
+    assignOf axes (axes.map σ) ix = σ ix := by
+  unfold assignOf
+  have hlt : axes.idxOf ix < axes.length := List.idxOf_lt_length_of_mem h
+  rw [List.getD_eq_getElem?_getD, List.getElem?_map, List.getElem?_eq_getElem hlt]
+  simp [List.getElem_idxOf hlt]
+
+/-- the result of contracting slice `i`, as an array with axes `output` minus sliced indices:
+    by definition the einsum of the sliced network (what C01 proves `contract_core` returns) -/
+def sliceResult (n : Net) (st : SliceState) (inner : List Ix) (A : List Arr) (i : Nat) : Arr :=
+  { shape := (slicedNet n st.slicedInds).output.map n.size,
+    get := fun idx => sliceEinsum n st inner A i (assignOf (slicedNet n st.slicedInds).output idx) }
+
+theorem denote_sliceResult (n : Net) (st : SliceState) (inner : List Ix) (A : List Arr) (i : Nat)
+    (hall : ∀ c, ∀ ix ∈ n.term c, ix ∈ n.output ∨ ix ∈ inner) (σ : Ix → Nat) :
+    denote (slicedNet n st.slicedInds).output (sliceResult n st inner A i) σ =
+      sliceEinsum n st inner A i σ := by
+  unfold denote sliceResult sliceEinsum
+  simp only
+  apply sumOver_agree _ _ (slicedNet n st.slicedInds).output
+  · intro τ τ' hag
+    apply prodTerms_agree
+    intro c ix hix
+    rw [slicedNet_term] at hix
+    obtain ⟨hterm, hns⟩ := List.mem_filter.1 hix
+    apply hag
+    rcases hall c ix hterm with h | h
+    · left
+      exact List.mem_filter.2 ⟨h, hns⟩
+    · right
+      unfold restRanges
+      rw [List.map_map]
+      exact List.mem_map.2 ⟨ix, List.mem_filter.2 ⟨h, hns⟩, rfl⟩
+  · intro ix hix
+    exact assignOf_map _ σ ix hix
+
+end Cotengra.Slicing
+
+namespace Cotengra.Slicing
+open Cotengra
+
+/-! ### chunks are section sums -/
+
+theorem ov_ov_append (σ : Ix → Nat) (kO kI : List (Ix × Nat)) :
+    ov (ov σ kO) (kO ++ kI) = ov σ (kO ++ kI) := by
+  funext ix
+  unfold ov
+  rw [keyGet_append]
+  cases h1 : keyGet kO ix with
+  | some v => simp
+  | none =>
+    simp only [Option.orElse_none]
+    cases h2 : keyGet kI ix with
+    | some w => simp
+    | none => simp [h1]
+
+theorem keyGet_of_validKey (sl : List SliceInfo) (k : List (Ix × Nat)) (hk : ValidKey sl k)
+    (hnd : (sl.map (·.ind)).Nodup) (s : SliceInfo) (hs : s ∈ sl) :
+    ∃ v, keyGet k s.ind = some v ∧ v ∈ s.slicedRange := by
+  induction sl generalizing k with
+  | nil => simp at hs
+  | cons a t ih =>
+    cases k with
+    | nil => simp [ValidKey] at hk
+    | cons kv k' =>
+      obtain ⟨x, y⟩ := kv
+      obtain ⟨h1, h2, h3⟩ := hk
+      simp only at h1 h2
+      subst h1
+      simp only [List.map_cons, List.nodup_cons] at hnd
+      rw [keyGet_cons]
+      rcases List.mem_cons.1 hs with rfl | hs'
+      · exact ⟨y, by simp, h2⟩
+      · have : s.ind ≠ a.ind := fun e => hnd.1 (e ▸ List.mem_map.2 ⟨s, hs', rfl⟩)
+        simp only [this, if_false]
+        exact ih k' h3 hnd.2 hs'
+
+/-- the output key selected by `σ` overridden with a valid key of the sliced outputs is that key -/
+theorem outKeyOf_ov (sl : List SliceInfo) (hnd : (sl.map (·.ind)).Nodup) (σ : Ix → Nat)
+    (kO : List (Ix × Nat)) (hk : kO ∈ allKeys (outs sl)) : outKeyOf sl (ov σ kO) = kO := by
+  have hkeys := keys_of_mem_allKeys _ _ hk
+  have hondup : ((outs sl).map (·.ind)).Nodup :=
+    List.Nodup.sublist (List.Sublist.map _ List.filter_sublist) hnd
+  have hv := (mem_allKeys _ _).1 hk
+  conv => rhs; rw [key_eq_map kO (by rw [hkeys]; exact hondup), hkeys, List.map_map]
+  unfold outKeyOf
+  apply List.map_congr_left
+  intro s hs
+  simp only [Function.comp, Prod.mk.injEq, true_and]
+  obtain ⟨v, hv1, hv2⟩ := keyGet_of_validKey (outs sl) kO hv hondup s hs
+  have hsl : s ∈ sl := (List.mem_filter.1 hs).1
+  unfold val keyVal
+  rw [infoOf_of_mem sl hnd s hsl, hv1]
+  simp only [Option.getD_some]
+  cases hp : s.project with
+  | none => simp [ov, hv1]
+  | some p =>
+    simp only [SliceInfo.slicedRange, hp, List.mem_singleton] at hv2
+    simp [hv2]
+
+/-- **a chunk is a section sum**: summing the slices `o*stepsize … o*stepsize+stepsize-1`
+    gives the reference einsum with the sliced output indices held at the chunk's key -/
+theorem chunk_section (n : Net) (st : SliceState) (hinv : Inv n st) (inner : List Ix)
+    (hin : inner.Nodup) (hdisj : ∀ ix ∈ inner, ix ∉ n.output)
+    (hcover : ∀ s ∈ st.slicedInds, s.ind ∉ n.output → s.ind ∈ inner)
+    (A : List Arr) (hA : A.length = n.inputs.length) (σ : Ix → Nat) (o : Nat)
+    (ho : o < nchunks st.slicedInds) :
+    ((List.range (stepsize st.slicedInds)).map fun j =>
+        sliceEinsum n st inner A (o * stepsize st.slicedInds + j) σ).sum =
+      einsumRef n st.slicedInds inner A (ov σ (sliceKey (outs st.slicedInds) o)) := by
+  set sl := st.slicedInds with hsl
+  have hwf : WF sl := hinv.flags.wf
+  have hnd := hinv.nodup
+  have hsplit := sorted_eq sl hinv.sorted
+  have hwf2 : WF (outs sl ++ inners sl) := by rw [← hsplit]; exact hwf
+  have hwfo : WF (outs sl) := fun s h => hwf s (List.mem_filter.1 h).1
+  have hwfi : WF (inners sl) := fun s h => hwf s (List.mem_filter.1 h).1
+  have hkO : sliceKey (outs sl) o ∈ allKeys (outs sl) := by
+    rw [← map_sliceKey_range (outs sl) hwfo]
+    exact List.mem_map.2 ⟨o, List.mem_range.2 ho, rfl⟩
+  have h1 : ((List.range (stepsize sl)).map fun j => sliceEinsum n st inner A (o * stepsize sl + j) σ) =
+      ((List.range (prodSizes (inners sl))).map (sliceKey (inners sl))).map fun kI =>
+        sumOver (restRanges n sl inner) (prodTerms n A) (ov σ (sliceKey (outs sl) o ++ kI)) := by
+    rw [List.map_map]
+    apply List.map_congr_left
+    intro j hj
+    have hj' : j < stepsize sl := List.mem_range.1 hj
+    simp only [Function.comp]
+    rw [sliceEinsum_eq n st hinv inner A hA _ σ]
+    have := sliceKey_append (outs sl) (inners sl) hwf2 o j ho hj'
+    rw [← hsplit] at this
+    show sumOver _ _ (ov σ (sliceKey sl (o * stepsize sl + j))) = _
+    rw [show o * stepsize sl + j = o * prodSizes (inners sl) + j from rfl, this]
+  rw [h1, map_sliceKey_range (inners sl) hwfi,
+    einsumRef_eq n sl hinv.flags hnd inner hin hdisj hcover A]
+  congr 1
+  apply List.map_congr_left
+  intro kI hkI
+  rw [← ov_outKey_append sl hnd (ov σ (sliceKey (outs sl) o)) kI hkI,
+    outKeyOf_ov sl hnd σ _ hkO, ov_ov_append]
 
 end Cotengra.Slicing
